@@ -373,6 +373,32 @@ def main(argv=None) -> int:
         return 2
 
 
+def _confirm_violation(mod, prop, verif_seed, known, r, vj):
+    """Minimise one violating run and confirm it by replay in a fresh interpreter."""
+    v = Violation(vj["oracle"], vj["message"], vj["signature"])
+    case0 = r["case"]
+    size0 = len(json.dumps(case0))
+    case, execs = minimise(mod, case0, v.key())
+    out = run_case(mod, case)
+    vmin = next((x for x in out.violations if x.key() == v.key()), None)
+    if vmin is None:
+        return ("problem", f"run {r['index']} did not reproduce in-process")
+    k = match_known(prop, vmin.to_json(), known)
+    if k is not None:
+        return ("known", k)
+    path = write_replay(mod, case, out, vmin, verif_seed, r["index"], size0)
+    env = dict(os.environ)
+    env["VERIF_REEXEC"] = "1"
+    env["PYTHONHASHSEED"] = "0"
+    p = subprocess.run([sys.executable, str(VERIF_DIR / "check"), prop, "--replay",
+                        str(path), "--quiet"], env=env, capture_output=True, text=True,
+                       timeout=600, cwd=str(VERIF_DIR))
+    if p.returncode != 1 or "match=True" not in p.stdout:
+        return ("problem", f"replay {path} did not reproduce in a fresh process "
+                           f"(rc={p.returncode}): {p.stdout[-300:]} {p.stderr[-300:]}")
+    return ("ok", path, vmin, size0, len(json.dumps(case)), execs)
+
+
 def _main_batch(mod, prop, verif_seed, args, t_start) -> int:
     tier = args.tier
     plan = dict(mod.TIERS[tier])
@@ -393,6 +419,55 @@ def _main_batch(mod, prop, verif_seed, args, t_start) -> int:
     if not records:
         raise HarnessError("no run completed within the budget")
 
+    # ---- violations
+    known = load_known()
+    known_hits: dict[str, dict] = {}
+    unknown: dict[str, list[tuple[dict, dict]]] = {}
+    n_violating = 0
+    for r in records:
+        if not r["violations"]:
+            continue
+        n_violating += 1
+        for v in r["violations"]:
+            k = match_known(prop, v, known)
+            if k is not None:
+                known_hits.setdefault(k.get("id", k.get("description", "?")), k)
+            else:
+                sig = json.dumps([v["oracle"], v["signature"]], sort_keys=True)
+                unknown.setdefault(sig, [])
+                if len(unknown[sig]) < 3:
+                    unknown[sig].append((r, v))
+    rc = 0
+    for k in known_hits.values():
+        print(f"KNOWN-FINDING: property={prop} {k.get('description', '')}")
+    reported = []
+    seen_min: set[str] = set()
+    for sig, cands in list(unknown.items())[:4]:
+        problems = []
+        for r, vj in cands:
+            res = _confirm_violation(mod, prop, verif_seed, known, r, vj)
+            if res[0] == "known":
+                print(f"KNOWN-FINDING: property={prop} {res[1].get('description', '')}")
+                break
+            if res[0] == "problem":
+                problems.append(res[1])
+                continue
+            _, path, vmin, size0, size1, execs = res
+            msig = json.dumps([vmin.oracle, vmin.signature], sort_keys=True)
+            if msig in seen_min:
+                break
+            seen_min.add(msig)
+            print(f"  {vmin.oracle}: {vmin.message}")
+            print(f"  signature={json.dumps(vmin.signature, sort_keys=True)} "
+                  f"(run {r['index']}, minimised {size0}->{size1} bytes, {execs} executions)")
+            print(f"VIOLATION property={prop} replay={path}")
+            reported.append(str(path))
+            rc = 1
+            break
+        else:
+            raise HarnessError(f"violation {sig} could not be confirmed in {len(cands)} "
+                               f"attempts: {problems}")
+
     # ---- determinism self-test: same seeds again, other pool size / chunking, and
     # a sample in a fresh interpreter under another PYTHONHASHSEED
     by_index = {r["index"]: r for r in records}
@@ -410,61 +485,12 @@ def _main_batch(mod, prop, verif_seed, args, t_start) -> int:
             if fres.get(i) != by_index[i]["digest"]:
                 mismatch.append(i)
     if mismatch:
-        raise HarnessError(f"non-deterministic runs (digest mismatch) at indices "
-                           f"{sorted(set(mismatch))[:10]}; the check is not believed")
-
-    # ---- violations
-    known = load_known()
-    known_hits: dict[str, dict] = {}
-    unknown: dict[str, tuple[dict, dict]] = {}
-    n_violating = 0
-    for r in records:
-        if not r["violations"]:
-            continue
-        n_violating += 1
-        for v in r["violations"]:
-            k = match_known(prop, v, known)
-            if k is not None:
-                known_hits.setdefault(k.get("id", k.get("description", "?")), k)
-            else:
-                sig = json.dumps([v["oracle"], v["signature"]], sort_keys=True)
-                if sig not in unknown:
-                    unknown[sig] = (r, v)
-    rc = 0
-    for k in known_hits.values():
-        print(f"KNOWN-FINDING: property={prop} {k.get('description', '')}")
-    reported = []
-    for sig, (r, vj) in list(unknown.items())[:4]:
-        v = Violation(vj["oracle"], vj["message"], vj["signature"])
-        case0 = r["case"]
-        size0 = len(json.dumps(case0))
-        case, execs = minimise(mod, case0, v.key())
-        out = run_case(mod, case)
-        vmin = next((x for x in out.violations if x.key() == v.key()), None)
-        if vmin is None:
-            raise HarnessError(f"violation {sig} at run {r['index']} did not reproduce "
-                               f"in-process after minimisation")
-        if match_known(prop, vmin.to_json(), known) is not None:
-            k = match_known(prop, vmin.to_json(), known)
-            print(f"KNOWN-FINDING: property={prop} {k.get('description', '')}")
-            continue
-        path = write_replay(mod, case, out, vmin, verif_seed, r["index"], size0)
-        env = dict(os.environ)
-        env["VERIF_REEXEC"] = "1"
-        env["PYTHONHASHSEED"] = "0"
-        p = subprocess.run([sys.executable, str(VERIF_DIR / "check"), prop, "--replay",
-                            str(path), "--quiet"], env=env, capture_output=True, text=True,
-                           timeout=600, cwd=str(VERIF_DIR))
-        if p.returncode != 1 or "match=True" not in p.stdout:
-            raise HarnessError(f"replay {path} did not reproduce in a fresh process "
-                               f"(rc={p.returncode}):\n{p.stdout}\n{p.stderr[-2000:]}")
-        print(f"  {vmin.oracle}: {vmin.message}")
-        print(f"  signature={json.dumps(vmin.signature, sort_keys=True)} "
-              f"(run {r['index']}, minimised {size0}->{len(json.dumps(case))} bytes, "
-              f"{execs} executions)")
-        print(f"VIOLATION property={prop} replay={path}")
-        reported.append(str(path))
-        rc = 1
+        if rc == 0:
+            raise HarnessError(f"non-deterministic runs (digest mismatch) at indices "
+                               f"{sorted(set(mismatch))[:10]}; the check is not believed")
+        print(f"WARNING property={prop}: runs {sorted(set(mismatch))[:10]} are not deterministic "
+              f"(the code under test behaves differently for the same seed); the violation above "
+              f"was confirmed by replay in a fresh process")
 
     # ---- evidence
     wall = time.monotonic() - t_start
